@@ -22,6 +22,8 @@ XZ_ENTRIES = ("easy", "stream", "stream_mt", "block", "easy_buffer", "stream_buf
 LZMA1_ENTRIES = ("alone", "raw1", "raw1_buffer", "microlzma")
 PRESET_ONLY = ("easy", "easy_buffer")
 ALL_ENTRIES = XZ_ENTRIES + LZMA1_ENTRIES + ("raw2", "raw_buffer")
+UPDATABLE = ("easy", "stream", "stream_mt", "raw2", "block")        # lzma_filters_update() is supported
+LCLPPB_CORNERS = [(0, 0, 0), (4, 0, 4), (0, 4, 0), (1, 3, 2), (0, 2, 0), (3, 0, 2), (2, 2, 2)]
 
 class EncError(Exception):
     """The encoder (or liblzma's decoder) did something C01 forbids; .key is the violation key."""
@@ -197,7 +199,7 @@ def apply_prefilters(info, data, encode=True):
     return data
 
 # ------------------------------------------------------------------------------------------- multi-call loop
-def code_segments(coder, data, segs, out_cap, out_grant=None, rng=None):
+def code_segments(coder, data, segs, out_cap, out_grant=None, rng=None, before_seg=None):
     """segs: [(length, action)] covering data; every segment is fed (optionally in pieces) with LZMA_RUN and then
     its action is repeated until LZMA_STREAM_END (flush / finish) - action RUN just feeds.
     Returns (ret, out bytes, flush boundaries [out offsets])."""
@@ -209,6 +211,8 @@ def code_segments(coder, data, segs, out_cap, out_grant=None, rng=None):
     marks = []
     ret = lz.OK
     for k, (ln, action) in enumerate(segs):
+        if before_seg is not None:
+            before_seg(k)          # e.g. lzma_filters_update() between two flushed pieces
         end = ip + ln
         guard = 0
         while True:
@@ -335,7 +339,26 @@ def encode(plan, data, bias=0, seed=1):
                     cap = max(6, int(lim))
                     R.limit = cap
                 grant = None
-            ret, out, marks, ip = code_segments(c, data, segs, cap, grant, rng)
+            before = None
+            R.update = None
+            if plan.get("update", "none") == "props" and e in UPDATABLE:
+                # lzma_filters_update() with different lc/lp/pb: after the first flushed piece, or before any input
+                # when nothing is flushed
+                cur = (info["lc"], info["lp"], info["pb"])
+                nlc, nlp, npb = rng.choice([x for x in LCLPPB_CORNERS if x != cur])
+                o2 = lz.OptLzma.from_buffer_copy(bytes(info["opt"]))
+                o2.lc, o2.lp, o2.pb = nlc, nlp, npb
+                chain2 = lz.make_filters([(fid, o2 if fid == lz.FILTER_LZMA2 else opt) for fid, opt in info["specs"]])
+                at_seg = 1 if len(segs) > 1 else 0
+                R.update = dict(at=segs[0][0] if at_seg else 0, lc=nlc, lp=nlp, pb=npb)
+                def before(k, c=c, chain2=chain2, at_seg=at_seg):
+                    if k == at_seg:
+                        r = L.lzma_filters_update(C.byref(c.strm), chain2)
+                        if r != lz.OK:
+                            raise EncError("enc:filters_update:%s:%s" % (e, lz.retname(r)),
+                                           "lzma_filters_update() with new lc/lp/pb refused at a legal point: %s plan=%r" % (
+                                               lz.retname(r), plan))
+            ret, out, marks, ip = code_segments(c, data, segs, cap, grant, rng, before)
             R.total_in = c.strm.total_in; R.total_out = c.strm.total_out
             c.end()
             R.ret, R.out, R.consumed, R.segs = ret, out, ip, segs
@@ -543,6 +566,7 @@ def lz_executions(R, libret, libout, mode=None):
                                    pre=B["filters"][:-1]))
                 off += sz
         gl_status = P.verdict
+    upd = getattr(R, "update", None)
     nb = len(blocks)
     if nb == 0:
         # a Stream without Blocks: legal only for empty input (TraceEncLzma2!TEmpty)
@@ -559,7 +583,18 @@ def lz_executions(R, libret, libout, mode=None):
         fin = _prefilter(B["pre"], sl)
         ev = [dict(common, e="Reset", input=list(fin) if mode == "bytes" else [], inlen=len(fin), indig=dig(fin),
                    l2len=B["l2len"], id="%s/b%d" % (label, bi))]
+        boff = sum(len(b["slice"]) for b in blocks[:bi])
+        pending = None
+        if upd is not None:
+            if upd["at"] <= boff:
+                ev[0].update(lc=upd["lc"], lp=upd["lp"], pb=upd["pb"])      # in force from the start of this Block
+            elif upd["at"] < boff + len(sl):
+                pending = {"e": "Update", "at": upd["at"] - boff, "lc": upd["lc"], "lp": upd["lp"], "pb": upd["pb"]}
+        cum = 0
         for ck in r2.chunks:
+            if pending is not None and cum >= pending["at"]:
+                ev.append(pending); pending = None
+            cum += (ck["usize"] or 0) if ck["kind"] in ("lzma", "uncompressed") else 0
             if ck["kind"] == "end":
                 ev.append({"e": "Chunk", "kind": "end"})
             elif ck["kind"] == "uncompressed":
